@@ -400,7 +400,7 @@ func (x *Exec) sprintf(format Val, rest []Val) Val {
 }
 
 func (x *Exec) stub(fn *ssa.Function, args []Val, site string) (Val, bool) {
-	name := fn.String()
+	name := x.w.name(fn)
 	switch name {
 	// ---- sync.Map: every method is one atomic visible operation
 	case "(*sync.Map).Load":
